@@ -28,7 +28,20 @@ RTM = 'commands::reporters::test'
 RTS = 'commands::reporters::test::structured'
 CT = 'commands::test'
 
+EC = 'rules::eval_context'
+
 UNITS = {
+    'U-unary': dict(functions='eval::unary_operation (+ exists/empty/is_* helpers, not_operation, inverse_operation, record_unary_clause)',
+                    cls='bounded (single selected value of each of 9 value kinds, empty selection, bare-variable special case); complete in operator-not x prefix-not',
+                    quick=reg('rules::eval', ['k_unary_exists', 'k_unary_empty', 'k_unary_is_string', 'k_unary_is_list', 'k_unary_is_map', 'k_unary_is_bool',
+                                              'k_unary_is_int', 'k_unary_is_float', 'k_unary_is_null', 'k_unary_empty_on_variable']),
+                    thorough=[], assumptions=STUBS + ['Map values not exercised (IndexMap cannot be built under Kani)'], timeout=900, mem_gb=8),
+    'U-idx': dict(functions='eval_context::retrieve_index', cls='complete in index: i32, bounded in the list (0..2 elements)',
+                  quick=reg(EC, ['k_retrieve_index']), thorough=[], assumptions=[STUBS[0]], timeout=600),
+    'U-rec': dict(functions='RecordTracker::start_record/end_record', cls='bounded (all sequences of 4 operations over two contexts)',
+                  quick=reg(EC, ['k_record_tracker']), thorough=[], assumptions=[STUBS[0]], timeout=900),
+    'U-call': dict(functions='Callable for FunctionName (Substring, Join, RegexReplace argument handling)', cls='bounded (every mix of empty / int / string / unresolved argument selections); complete in the i64 offsets',
+                   quick=reg(EC, ['k_call_substring_args', 'k_call_join_args', 'k_call_regex_replace_args', 'k_call_substring_offsets']), thorough=[], assumptions=STUBS, timeout=900),
     'U-expect': dict(functions='reporters::test::get_status_result', cls='bounded (<= 3 definitions per rule name, all 3^k statuses x 3 expected statuses)',
                      quick=reg(RTM, ['k_expect']), thorough=[], assumptions=[], timeout=600),
     'U-xr': dict(functions='TestResult::get_exit_code + TestCase::has_failures', cls='bounded (<= 2 test cases x <= 2 failed rules)',
